@@ -16,4 +16,6 @@ for f in sorted(glob.glob(os.path.join(V, "evidence", "*.json"))):
         jsonschema.validate(json.load(open(f)), es)
         print("ok", os.path.basename(f))
     except jsonschema.ValidationError as e:
-        print("INVALID", f, e.message[:200]); sys.exit(1)
+        pid = os.path.basename(f)[:-5]
+        print("INVALID" if pid in ids else "invalid (not claimed)", f, e.message[:200])
+        if pid in ids: sys.exit(1)
